@@ -754,7 +754,12 @@ where
             // The repetition begins and ends with a separator.
             //
             // For example, `</foo/bar/:1,>`.
-            StartEnd((left, _), (right, _)) if left.boundary().and(right.boundary()).is_some() => {
+            // The terminals may also be branches that begin and end with boundaries.
+            //
+            // For example, `<{/foo,bar}baz/**:1,>`.
+            StartEnd((left, _), (right, _))
+                if has_starting_boundary(Some(left)) && has_ending_boundary(Some(right)) =>
+            {
                 Err(CorrelatedError::new(
                     RuleErrorKind::AdjacentBoundary,
                     Some(left),
